@@ -65,7 +65,7 @@ def gen(n, seed):
     for c in cands:
         if per.get(c[0], 0) < cap and len(pick) < n:
             pick.append(c); per[c[0]] = per.get(c[0], 0) + 1
-    muts = [{"id": "X%03d" % k, "file": f, "line": i + 1, "old": old, "new": new, "op": op} for k, (f, i, old, new, op) in enumerate(pick)]
+    muts = [{"id": "%s%03d" % (os.environ.get("MUT_PREFIX", "X"), k), "file": f, "line": i + 1, "old": old, "new": new, "op": op} for k, (f, i, old, new, op) in enumerate(pick)]
     json.dump(muts, open(os.path.join(OUT, "mutants.json"), "w"), indent=1)
     print("generated", len(muts), "mutants over", len(per), "files from", len(cands), "candidates")
 
@@ -185,6 +185,12 @@ if __name__ == "__main__":
         rows = []
         for fn in sorted(glob.glob(os.path.join(OUT, "rows-*.json"))):
             rows += json.load(open(fn))
+        # rows of earlier sweeps (other id prefixes) are kept
+        try:
+            have = {r["id"] for r in rows}
+            rows += [r for r in json.load(open("/verif/selftest/MUTSWEEP.json")) if r["id"] not in have]
+        except Exception:
+            pass
         rows.sort(key=lambda r: r["id"])
         tri_path = "/verif/selftest/mutsweep_triage.json"
         triage = json.load(open(tri_path)) if os.path.exists(tri_path) else {}
